@@ -248,7 +248,7 @@ func runRule(p *Prog, r *Rule, tier string) (res *RuleResult) {
 	// a report inside a function whose shape the normaliser cannot look through is withdrawn: the rule is
 	// undecided for that construct (opaque.go)
 	withdrawn := ""
-	if len(p.Opaque) > 0 {
+	if len(p.Opaque) > 0 && !r.Local {
 		kept := c.obs[:0]
 		for _, o := range c.obs {
 			if !o.OK && !isOpenFinding(r.ID, o.Key) {
